@@ -1019,7 +1019,9 @@ func ruleC17f(c *Ctx) []*report.Result {
 	}
 	seen := map[*ssa.Global]bool{}
 	for _, fn := range c.P.ModuleFunctions() {
-		if recvNamed(fn) != tPP {
+		// the printer's methods, and the unexported functions of its package
+		// through which it may consult a registry (isSafeType(t))
+		if recvNamed(fn) != tPP && !(pkgPathOf(fn) == pkgRfmt && fn.Signature.Recv() == nil && fn.Object() != nil && !fn.Object().Exported()) {
 			continue
 		}
 		for _, b := range fn.Blocks {
